@@ -31,7 +31,7 @@ pub static mut PUSH_HOOK: Option<fn(*const ()) -> bool> = None;
 /// Number of rings ever created (C16: a disabled build creates none).
 pub static mut RINGS_CREATED: usize = 0;
 
-struct Ring<T> {
+pub struct RingBuffer<T> {
     slots: [Option<T>; SLOTS],
     head: usize,
     len: usize,
@@ -39,17 +39,27 @@ struct Ring<T> {
     producer_alive: bool,
     consumer_alive: bool,
 }
+type Ring<T> = RingBuffer<T>;
 
-pub struct RingBuffer<T>(std::marker::PhantomData<T>);
+impl<T> fmt::Debug for RingBuffer<T> {
+    fn fmt(&self, f: &mut fmt::Formatter<'_>) -> fmt::Result {
+        f.write_str("RingBuffer(model)")
+    }
+}
 
 impl<T> RingBuffer<T> {
+    /// rtrb API: the capacity of the queue.
+    pub fn capacity(&self) -> usize {
+        self.capacity
+    }
+
     #[allow(clippy::new_ret_no_self)]
     pub fn new(capacity: usize) -> (Producer<T>, Consumer<T>) {
         let cap = unsafe {
             RINGS_CREATED += 1;
             if capacity < MODEL_CAPACITY { capacity } else { MODEL_CAPACITY }
         };
-        let ring = Box::into_raw(Box::new(Ring {
+        let ring = Box::into_raw(Box::new(RingBuffer {
             slots: [None, None, None, None, None, None, None, None],
             head: 0,
             len: 0,
@@ -133,6 +143,10 @@ impl<T> Producer<T> {
     pub fn is_abandoned(&self) -> bool {
         unsafe { !(*self.ring).consumer_alive }
     }
+    /// rtrb API: the ring buffer this producer belongs to.
+    pub fn buffer(&self) -> &RingBuffer<T> {
+        unsafe { &*self.ring }
+    }
 }
 
 impl<T> Consumer<T> {
@@ -159,6 +173,23 @@ impl<T> Consumer<T> {
     }
     pub fn is_empty(&self) -> bool {
         self.slots() == 0
+    }
+    /// rtrb API: the ring buffer this consumer belongs to.
+    pub fn buffer(&self) -> &RingBuffer<T> {
+        unsafe { &*self.ring }
+    }
+    /// rtrb API: the next value without removing it.
+    pub fn peek(&self) -> Result<&T, PeekError> {
+        unsafe {
+            let r = &*self.ring;
+            if r.len == 0 {
+                return Err(PeekError::Empty);
+            }
+            match r.slots[r.head].as_ref() {
+                Some(v) => Ok(v),
+                None => Err(PeekError::Empty),
+            }
+        }
     }
     /// Model-only: number of queued values (no yield).
     pub fn model_len(&self) -> usize {
@@ -203,6 +234,17 @@ pub enum PopError {
 }
 impl std::error::Error for PopError {}
 impl fmt::Display for PopError {
+    fn fmt(&self, f: &mut fmt::Formatter<'_>) -> fmt::Result {
+        f.write_str("empty ring buffer")
+    }
+}
+
+#[derive(Debug, Copy, Clone, PartialEq, Eq)]
+pub enum PeekError {
+    Empty,
+}
+impl std::error::Error for PeekError {}
+impl fmt::Display for PeekError {
     fn fmt(&self, f: &mut fmt::Formatter<'_>) -> fmt::Result {
         f.write_str("empty ring buffer")
     }
